@@ -5,7 +5,7 @@ import json, os, re, shutil, subprocess, time
 VERIF = os.path.dirname(os.path.dirname(os.path.abspath(__file__)))
 CACHE = os.path.join(VERIF, ".cache", "kani-target")
 
-KANI_FLAGS = ["-Z", "function-contracts", "-Z", "stubbing", "-Z", "loop-contracts",
+KANI_FLAGS = ["-Z", "function-contracts", "-Z", "stubbing", "-Z", "loop-contracts", "--no-assert-contracts",
               "-Z", "unstable-options"]
 
 
